@@ -1550,7 +1550,7 @@ def common_axis_stub(P):
     """_common_axis(axes, join) as a black box: the inputs' own Axis object when all of them carry the same labels, else a new axis whose label token records the join"""
     def f(itp, a, k):
         holders = itp.iterate(a[0])
-        join = a[1] if len(a) > 1 else k.get('join', 'outer')
+        join = a[1] if len(a) > 1 else (list(k.values())[0] if len(k) == 1 else k.get('join', 'outer'))
         if not holders:
             raise Raised('IndexError')
         for h in holders:
@@ -1573,7 +1573,11 @@ def aligned_axes_stub(P):
         opts = {'join': 'outer', 'axis': None, 'sort': False, 'strict': False}
         for n, v in zip(names, a[1:]):
             opts[n] = v
+        # (keyword names as the helper has them today: a private helper's parameters may have been renamed, their positions say which option each is)
+        fi_ = P.functions.get('dimarray.core.align._get_aligned_axes')
+        cur = dict(zip(list(fi_.params)[1:5], names)) if fi_ is not None else {}
         for kk, vv in k.items():
+            kk = cur.get(kk, kk)
             if kk not in opts:
                 raise Raised('TypeError')
             opts[kk] = vv
